@@ -12,7 +12,7 @@
 		g_st_code = nondet_u16(); g_st_reason = nondet_ptr(); g_ver_arg = nondet_ptr(); \
 		g_meth_arg = nondet_ptr(); g_uri_arg = nondet_ptr(); g_uri_query = nondet_ptr(); \
 		g_add_key = nondet_ptr(); g_add_val = nondet_ptr();             \
-		g_add_rv = nondet_int(); g_uri_rv = nondet_int(); g_canon_rv = nondet_int(); \
+		g_add_rv = nondet_int(); g_ver_rv = nondet_int(); g_uri_rv = nondet_int(); g_canon_rv = nondet_int(); \
 		g_hdr_err = nondet_int();                                       \
 		g_alloc_ok = nondet_u32(); g_free_calls = nondet_u32();         \
 	} while (0)
@@ -20,3 +20,122 @@
 void h_res_parse_line(void) { nng_http *conn; uint8_t *line; VP_HAVOC_GHOSTS(); http_res_parse_line(conn, line); VP_CANARY(); }
 void h_parse_header(void) { nng_http *conn; void *line; VP_HAVOC_GHOSTS(); http_parse_header(conn, line); VP_CANARY(); }
 void h_req_parse_line(void) { nng_http *conn; void *line; VP_HAVOC_GHOSTS(); http_req_parse_line(conn, line); VP_CANARY(); }
+
+/* ---- lemma harnesses on the REAL nni_http_req_parse / nni_http_res_parse
+ * (real http_scan_line, http_parse_header, http_*_parse_line; only the
+ * http_conn.c stores are replaced by their assumed contracts).  Bounded:
+ * buffers of at most RP_N bytes, every byte value, every n <= RP_N. */
+#ifndef RP_N
+#define RP_N 7
+#endif
+/* reference: does the consumed region orig[0..len) hold a field line (a line
+ * after the start line, before the blank line) without ':' ? */
+static bool
+vp_ref_field_without_colon(const uint8_t *orig, size_t len, bool start_line_pending)
+{
+	size_t i     = 0;
+	bool   first = start_line_pending;
+	bool   bad   = false;
+	while (i < len) {
+		size_t j = i;
+		while (j < len && orig[j] != '\n') {
+			j++;
+		}
+		if (j >= len) {
+			break; /* cannot happen: the consumed region ends with LF */
+		}
+		size_t e = j;
+		if (e > i && orig[e - 1] == '\r') {
+			e--;
+		}
+		if (e == i) {
+			break; /* blank line ends the head */
+		}
+		if (!first) {
+			bool colon = false;
+			for (size_t k = i; k < e; k++) {
+				if (orig[k] == ':') {
+					colon = true;
+				}
+			}
+			if (!colon) {
+				bad = true;
+			}
+		}
+		first = false;
+		i     = j + 1;
+	}
+	return (bad);
+}
+
+static void
+vp_parse_lemma(bool is_req)
+{
+	nng_http *conn = malloc(sizeof(*conn));
+	uint8_t   buf[RP_N], orig[RP_N];
+	size_t    n = nondet_size_t(), len = nondet_size_t();
+	bool      parsed0 = nondet_bool();
+	int       rv;
+	__CPROVER_assume(conn != NULL);
+	__CPROVER_assume(n <= RP_N);
+	for (size_t i = 0; i < RP_N; i++) {
+		buf[i]  = nondet_u8();
+		orig[i] = buf[i];
+	}
+	VP_HAVOC_GHOSTS();
+	g_hdr_err = 0;
+	/* request variant: the start line (if still pending) is one that was already
+	 * refused (status 400), so that http_req_parse_line returns at once: with a
+	 * symbolic status the unit runs out of memory (12 GB) */
+	conn->code            = is_req ? NNG_HTTP_STATUS_BAD_REQUEST : 0;
+	conn->req.data.parsed = parsed0;
+	conn->res.data.parsed = parsed0;
+	rv = is_req ? nni_http_req_parse(conn, buf, n, &len) : nni_http_res_parse(conn, buf, n, &len);
+	__CPROVER_assert(len <= n, "parse: consumed <= n");
+	/* C16/C11: an incomplete line is not consumed and not touched */
+	for (size_t i = 0; i < RP_N; i++) {
+		if (i >= len && i < n) {
+			__CPROVER_assert(buf[i] == orig[i], "parse: bytes not consumed are untouched");
+			if (rv == NNG_EAGAIN) {
+				__CPROVER_assert(orig[i] != '\n', "parse: EAGAIN only when no complete line is left");
+			}
+		}
+	}
+	__CPROVER_assert(len == 0 || orig[len - 1] == '\n', "parse: consumes whole lines only");
+	/* C20: a failure of the header store is reported */
+	__CPROVER_assert(g_hdr_err == 0 || rv != 0, "parse: header store failure is reported");
+	/* C16: a field line without ':' is refused */
+	__CPROVER_assert(rv != 0 || !vp_ref_field_without_colon(orig, len, !parsed0), "parse: accepted head has no field line without colon");
+	/* the head is complete (result 0) only at a blank line */
+	__CPROVER_assert(rv != 0 || (len >= 1 && (len == 1 || orig[len - 2] == '\n' || (len >= 2 && orig[len - 2] == '\r' && (len == 2 || orig[len - 3] == '\n')))), "parse: 0 only at the blank line");
+	if (is_req) {
+		__CPROVER_assert(rv == NNG_EAGAIN || !conn->req.data.parsed, "req parse: state reset unless more data is needed");
+	}
+}
+void h_req_parse_lemma(void) { vp_parse_lemma(true); VP_CANARY(); }
+void h_res_parse_lemma(void) { vp_parse_lemma(false); VP_CANARY(); }
+
+/* the ASSUMED result clause of nni_http_set_version (contracts.h SETVER_RV) checked
+ * on the real function; run WITHOUT DFCC because DFCC havocs the function's
+ * static table http_versions[] */
+void h_set_version_real2(void)
+{
+	nng_http   *c = malloc(sizeof(*c));
+	char        v[10];
+	const char *old;
+	int         rv;
+	__CPROVER_assume(c != NULL);
+	for (int i = 0; i < 9; i++) {
+		v[i] = (char) nondet_u8();
+	}
+	v[9]    = 0;
+	c->vers = nondet_ptr();
+	old     = c->vers;
+	rv      = nni_http_set_version(c, v);
+	__CPROVER_assert(rv == SETVER_RV(v), "set_version: 0 exactly for the five known version strings");
+	__CPROVER_assert(rv != 0 || VERS_SAME(c->vers, v), "set_version: stores the table entry equal to the argument");
+	__CPROVER_assert(rv == 0 || c->vers == old, "set_version: refused => version unchanged");
+	rv = nni_http_set_version(c, NULL);
+	__CPROVER_assert(rv == 0 && VEQ5(c->vers, '1', '1'), "set_version: NULL means HTTP/1.1");
+	VP_CANARY();
+}
